@@ -12,4 +12,18 @@ lake build J5V
 # proof modules and drivers
 for f in J5V/Props/*.lean; do m=$(echo "${f%.lean}" | tr / .); lake build "$m"; done
 for d in $(grep -o 'name = "drv_[a-z0-9_]*"' lakefile.toml | cut -d'"' -f2); do lake build "$d"; done
+cd ..
+# warm the Go build cache: build every harness once against /repo's current tree
+python3 - <<'PY'
+import os, sys
+sys.path.insert(0, os.getcwd())
+from vlib import engine
+d = os.path.join(engine.VERIF, "harness", "tree", "internal", "verifh")
+for name in sorted(os.listdir(d)):
+    if os.path.exists(os.path.join(d, name, "main.go")):
+        out, log, dt = engine.build_harness(name)
+        print("harness", name, "ok" if out else "FAILED", "%.1fs" % dt)
+        if not out:
+            print(log[-2000:])
+PY
 echo setup-ok
